@@ -494,7 +494,7 @@ def slim(c):
     if c.get("multi"):      # replay the whole run on one querier
         return {"id": c["parent"], "kind": "multi", "class": c.get("class"), "ctx": c["ctx"], "ldb": c.get("ldb"),
                 "calls": [{"hints": x["hints"], "ms": x.get("ms"), "rows": x.get("rows")} for x in c.get("calls") or []], "failing_call": c["call"]}
-    keep = ("id", "kind", "sub", "class", "hints", "ctx", "ms", "query", "rows", "fetch", "db", "pdb", "sort_series")
+    keep = ("id", "kind", "sub", "class", "hints", "ctx", "ms", "query", "rows", "fetch", "db", "pdb", "sort_series", "members")
     return {k: c[k] for k in keep if k in c and c[k] is not None}
 
 
@@ -559,8 +559,63 @@ def expand_multi(cases):
     return out
 
 
+def paren_body(text, start):
+    """text[start] is '(' : the text up to its closing parenthesis (SQL strings '..' with backslash escapes skipped), or None"""
+    depth, i, n = 0, start, len(text)
+    while i < n:
+        ch = text[i]
+        if ch == "'":
+            i += 1
+            while i < n and text[i] != "'":
+                i += 2 if text[i] == "\\" else 1
+        elif ch == "(":
+            depth += 1
+        elif ch == ")":
+            depth -= 1
+            if depth == 0:
+                return text[start + 1:i]
+        i += 1
+    return None
+
+
+def expand_pseries(cases):
+    """a profile Series request with several matchers (PlanSeries): the statement must hold, per matcher i, the WITH `fp_i`
+    whose body is that matcher's own selector statement, and exactly one UNION ALL member reading `fp_i`; each extracted
+    body becomes a profile case of its own (text tie + reference interpreter + Pyroscope meaning on the case's database)"""
+    out = []
+    for c in cases:
+        ms = c.get("members") or []
+        if c["kind"] != "prof" or len(ms) < 2 or c.get("err") or not c.get("series_sql"):
+            continue
+        text = c["series_sql"]
+        problems = []
+        if text == "!error" or any(m.get("err") for m in ms):
+            problems.append("PlanSeries or a member failed: %s" % [m.get("err") for m in ms])
+            c["series_problems"] = problems
+            continue
+        if text.count("p.fingerprint IN (") != len(ms) or text.count(" UNION ALL ") != len(ms) - 1:
+            problems.append("%d readers of a fingerprint alias, %d UNION ALL for %d matchers" % (
+                text.count("p.fingerprint IN ("), text.count(" UNION ALL "), len(ms)))
+        for i, m in enumerate(ms):
+            head = "fp_%d as (" % i
+            at = text.find(head)
+            body = paren_body(text, at + len(head) - 1) if at >= 0 else None
+            if body is None:
+                problems.append("no WITH fp_%d" % i)
+                continue
+            if body != m["sql"]:
+                problems.append("WITH fp_%d is not the selector statement of matcher %d (%s): %s" % (i, i, m["query"], first_diff(body.encode(), m["sql"].encode())))
+            if text.count("(p.fingerprint IN (fp_%d))" % i) != 1:
+                problems.append("fp_%d is read by %d members" % (i, text.count("(p.fingerprint IN (fp_%d))" % i)))
+            out.append({"id": 100000000 + c["id"] * 4 + i, "kind": "prof", "class": (c.get("class") or []) + ["series-member"],
+                        "ctx": c["ctx"], "tables": c.get("tables"), "sels": m.get("sels") or [], "pdb": c.get("pdb"),
+                        "oracle": m.get("oracle") or [], "sql": body, "query": m["query"], "parent": c["id"], "member": i})
+        c["series_problems"] = problems
+    return out
+
+
 def run_shard(ck, cases, idx):
-    cases = cases + expand_multi(cases)
+    cases = cases + expand_multi(cases) + expand_pseries(cases)
     byid = {c["id"]: c for c in cases}
     lines = []
     parse_failures = []
@@ -679,6 +734,20 @@ def run_shard(ck, cases, idx):
                 mism.append((c, "labels request " + first_diff(got, want)))
     ck.obligation("correspondence: render(model planners) = SQL text of TranspileLabelMatchers / Downsample / Select / labelsGetter / profile selector, byte for byte, on %d statements" % nsql,
                   not mism, "; ".join("%s %s %s => %s" % (c["kind"], c.get("hints") or c.get("query"), c.get("ms"), d) for c, d in mism[:3]))
+    ser = [c for c in cases if "series_problems" in c]
+    if ser:
+        bad_ser = [c for c in ser if c["series_problems"]]
+        ck.obligation("multi-matcher profile Series requests (PlanSeries, %d requests with 2-3 matchers): every matcher has its own WITH fp_i = its "
+                      "selector statement byte for byte, read by exactly one UNION ALL member (each body is then judged like a selector of its own)" % len(ser),
+                      not bad_ser, "; ".join("%s: %s" % ([m["query"] for m in c["members"]], c["series_problems"][:2]) for c in bad_ser[:3]))
+        if bad_ser:
+            ck.violation({"property": "C17", "part": "prof-series", "kind": "a matcher of a multi-matcher Series request does not read its own fingerprints",
+                          "case": slim(bad_ser[0]), "problems": bad_ser[0]["series_problems"], "statement": bad_ser[0].get("series_sql"),
+                          "replay": "harness promsel --cases <file with the case line>"})
+        ck.extra["prof_series_requests"] = ck.extra.get("prof_series_requests", 0) + len(ser)
+    PSEUDO = ("__name__", "__period_type__", "__period_unit__", "__sample_type__", "__sample_unit__", "__profile_type__", "service_name")
+    nabs = len([c for c in cases if c["kind"] == "prof" and any(x.get("e") and x["n"] not in PSEUDO for x in c.get("sels") or [])])
+    ck.extra["prof_selectors_accepting_absent_label"] = ck.extra.get("prof_selectors_accepting_absent_label", 0) + nabs
     ck.extra.setdefault("promsel_sql_mismatches", [])
     ck.extra["promsel_sql_mismatches"] += [{"case": slim(c), "diff": d} for c, d in mism[:10]]
 
